@@ -195,9 +195,16 @@ Definition rebuild_swnm (r : list rsection) : result (list rswitch * list (rswit
   let reqs := map (fun s => match s_idx s with Some k => RCarry k | None => RFresh end) all in
   do outs <- Alloc.rebuild_swnm reqs;
   let assigned := flat_map (fun p => match snd p with Placed i => [(fst p, i)] | _ => [] end) (combine all outs) in
-  Ok (map (fun i => match assocN_last i (map (fun p => (snd p, fst p)) assigned) with
+  (* slot i takes the LAST switch assigned to i that has a name; a reference by number alone (no name) takes the slot only
+     when no named switch claims it: it never erases a name *)
+  let by_slot := map (fun p => (snd p, fst p)) assigned in
+  let named_by_slot := filter (fun p => negb (rstr_empty (s_name (snd p)))) by_slot in
+  Ok (map (fun i => match assocN_last i named_by_slot with
                     | Some s => {| s_name := s_name s; s_idx := Some i; s_oid := s_oid s |}
-                    | None => {| s_name := RNull; s_idx := Some i; s_oid := 0 |}
+                    | None => match assocN_last i by_slot with
+                              | Some s => {| s_name := s_name s; s_idx := Some i; s_oid := s_oid s |}
+                              | None => {| s_name := RNull; s_idx := Some i; s_oid := 0 |}
+                              end
                     end) (map N.of_nat (seq 0 (N.to_nat MAX_SWITCHES))),
       assigned).
 
